@@ -94,6 +94,7 @@ class Fusion:
             self.curr_block = self.blocks[-1]
             self.fused_ranks = fused_ranks
             self.curr_config = config
+            self.components_used = components_used
 
         # Prepare to record the components contributing to the exectuion time
         self.component_dict[einsum] = []
